@@ -212,9 +212,10 @@ inline void auditGraphQueries(GlobalGraph& g, const GModel& m, Q& q) {
     qVal<U>(q, "getTop", a, [&] { return cg.getTop(id); }, w.first);
     qVal<U>(q, "getBottom", a, [&] { return cg.getBottom(id); }, w.second);
   }
-  // absent arguments: one deleted id (if any) and the never-used next id. List queries must raise. (Iterator factories on an
+  // absent arguments: one deleted id if any, else the never-used next id. List queries must raise. (Iterator factories on an
   // absent node are exercised by a dedicated operation, because they have no defined behaviour to fall back on.)
-  std::vector<U> absentN; for (U n = 0; n < m.nextN; ++n) if (!m.hasN(n)) { absentN.push_back(n); break; } absentN.push_back(m.nextN);
+  // (a deleted id and a never-created id take the same path through the std::map tables: one of them per state)
+  std::vector<U> absentN; for (U n = 0; n < m.nextN; ++n) if (!m.hasN(n)) { absentN.push_back(n); break; } if (absentN.empty()) absentN.push_back(m.nextN);
   for (U n : absentN) {
     std::string a = "(" + str(n) + " absent)";
     qRaise(q, "getOutgoingNeighbors", a, [&] { cg.getOutgoingNeighbors(n); });
@@ -233,7 +234,7 @@ inline void auditGraphQueries(GlobalGraph& g, const GModel& m, Q& q) {
       qRaise(q, "getEdge", "(" + str(l) + "," + str(n) + " absent)", [&] { cg.getEdge(l, n); });
       qRaise(q, "getAnyEdge", "(" + str(n) + " absent," + str(l) + ")", [&] { cg.getAnyEdge(n, l); }); }
   }
-  std::vector<U> absentE; for (U e = 0; e < m.nextE; ++e) if (!m.hasE(e)) { absentE.push_back(e); break; } absentE.push_back(m.nextE);
+  std::vector<U> absentE; for (U e = 0; e < m.nextE; ++e) if (!m.hasE(e)) { absentE.push_back(e); break; } if (absentE.empty()) absentE.push_back(m.nextE);
   for (U e : absentE) {
     std::string a = "(" + str(e) + " absent)";
     qRaise(q, "getNodes", a, [&] { cg.getNodes(e); });
